@@ -499,6 +499,17 @@ Definition is_ok_out (id : str) (o : option smsg) : bool :=
 Definition is_count_out (sub : str) (o : option smsg) : bool :=
   match o with Some (SCount m) => str_eqb (c_sub m) sub | _ => false end.
 
+(** the window opened by [CReq sub fs] in state [s]: what the client sees at
+    each of the steps [w] that follow the REQ *)
+Definition win_outs (s : state) (sub : str) (fs : list rfilter) (w : list input) : list (option smsg) :=
+  outs (fst (merge_step s (CReq sub fs))) w.
+
+(** ... and the windows opened by an EVENT / a COUNT *)
+Definition evt_outs (s : state) (id : str) (w : list input) : list (option smsg) :=
+  outs (fst (merge_step s (CEvent id))) w.
+Definition cnt_outs (s : state) (sub : str) (w : list input) : list (option smsg) :=
+  outs (fst (merge_step s (CCount sub))) w.
+
 (** created_at never increases along a list of events *)
 Fixpoint ts_noninc (l : list event) : Prop :=
   match l with
